@@ -23,6 +23,7 @@ type RecvPeer struct {
 	Demux    *wirekit.Demux
 	Seed     int32
 	Rules    []string // filter rules the client sent
+	SendRules []string // harness as client of a deleting server: the filter rules to transmit (e.g. "- name")
 }
 
 // StartClientReceiver runs the real client in receiver mode towards dest; the
@@ -123,6 +124,10 @@ func (p *RecvPeer) ClientHandshake(sendFilterList bool) error {
 	p.In = &wirekit.R{R: p.Demux}
 	p.Out = w
 	if sendFilterList {
+		for _, r := range p.SendRules {
+			w.Int32(int32(len(r)))
+			w.Bytes([]byte(r))
+		}
 		w.Int32(0)
 	}
 	return w.Err
